@@ -31,7 +31,7 @@ ASSUMPTIONS = ["unit weights for the linear clauses (the property's domain); lin
                "impurity_improvement is evaluated after proxy_impurity_improvement, as the splitter does"]
 CASE_TIMEOUT = 600
 
-TARGETS = ["gauss", "constant", "offset", "duplicates", "integers"]
+TARGETS = ["gauss", "constant", "offset", "duplicates", "integers", "tiny", "huge"]
 
 
 def cases(tier, seed):
@@ -68,6 +68,10 @@ def target(rng, kind, n):
         return numpy.full(n, 2.5)
     if kind == "offset":
         return 1e6 + rng.randn(n)
+    if kind == "tiny":
+        return rng.randn(n) * 10.0 ** (-int(rng.randint(5, 9)))
+    if kind == "huge":
+        return rng.randn(n) * 10.0 ** int(rng.randint(4, 8))
     if kind == "duplicates":
         return rng.choice([0.5, 1.5, -2.0], size=n)
     return rng.randint(-3, 4, size=n).astype(float)
@@ -115,7 +119,11 @@ def run_crit(case, ctx):
         d = int(rng.randint(1, 4))
         X = numpy.ascontiguousarray(rng.randn(n, d) if tkind != "offset" else 2000 + rng.rand(n, d) * 12)
         W = float(w.sum())
-        atol = 1e-9 * (1 + float(numpy.abs(y).max()) ** 2) * (100 if tkind == "offset" else 1)
+        ymax = float(numpy.abs(y).max())
+        # slack relative to the magnitude of the targets (an absolute floor would hide everything on tiny ones)
+        atol = 1e-9 * ((1 + ymax ** 2) if tkind not in ("tiny", "huge") else max(ymax ** 2, 1e-300)) * (
+            100 if tkind == "offset" else 1)
+        vtol = 1e-9 * (1.0 if tkind not in ("tiny", "huge") else max(ymax, 1e-300))
         cfg = {"n": n, "target": tkind, "weights": wkind, "order": okind, "d": d}
         crits = {"simple": SimpleRegressorCriterion(1, n), "fast": SimpleRegressorCriterionFast(1, n)}
         if wkind == "unit":
@@ -151,7 +159,7 @@ def run_crit(case, ctx):
                 val = cm._test_criterion_node_value(c)
                 imp = cm._test_criterion_node_impurity(c)
                 m, mse = wmean_mse(ys_o[s:e], w_o[s:e])
-                if not close(val, m, atol ** 0.5 * 1e-3 + 1e-9 * (1 + abs(m))):
+                if not close(val, m, atol ** 0.5 * 1e-3 + vtol + 1e-9 * abs(m)):
                     ctx.violation(K + "node-value", "range [%d,%d): node value %r, weighted mean %r" % (s, e, val, m),
                                   cfg=cfg)
                 if name == "linear":
@@ -200,7 +208,7 @@ def run_crit(case, ctx):
             if "simple" in res and "fast" in res:
                 ctx.hit("crit.simple_vs_fast")
                 a, b = res["simple"], res["fast"]
-                ok = close(a[0], b[0], atol ** 0.5 * 1e-3 + 1e-9) and close(a[1], b[1], atol) and all(
+                ok = close(a[0], b[0], atol ** 0.5 * 1e-3 + vtol) and close(a[1], b[1], atol) and all(
                     close(p[0], q[0], atol) and close(p[1], q[1], atol) for p, q in zip(a[2], b[2]))
                 if not ok:
                     ctx.violation("C09/criterion/simple-vs-fast", "range [%d,%d): the two constant-fit criteria "
